@@ -234,11 +234,15 @@ def correspond(ctx, stream, cases, nontrivial=None, spec_equal=None, model_equal
 # ---------------------------------------------------------------- findings / verdicts
 
 def load_findings(prop):
-    p = os.path.join(VERIF, "known_findings.json")
-    if not os.path.exists(p):
-        return []
-    data = json.load(open(p))
-    return [f for f in data.get("findings", []) if f.get("property") == prop]
+    """Known findings live in /verif/known_findings/<ID>.json (one committed file per property,
+    never written by a check) plus the index /verif/known_findings.json."""
+    out = []
+    for p in (os.path.join(VERIF, "known_findings.json"),
+              os.path.join(VERIF, "known_findings", prop + ".json")):
+        if os.path.exists(p):
+            data = json.load(open(p))
+            out += [f for f in data.get("findings", []) if f.get("property") == prop]
+    return out
 
 
 PREDICATES = {}
